@@ -35,6 +35,8 @@ def trace_stats(work):
             if w[0] == "ptname":
                 pend = w[1]
                 continue
+            if w[0] == "note" and len(w) >= 7 and w[3] == "pass" and w[6] == "1":
+                releasing = False          # (traces without BAR_RETURN events)
             if w[0] != "ev" or len(w) < 7:
                 continue
             pt = pend if w[3] == "PT?" and pend else w[3]
